@@ -55,6 +55,36 @@ func adversarial(sizes []int) []advCase {
 			fmt.Fprintf(&sb, " fragment F%d on %s{a}", n, root[1])
 			out = append(out, advCase{root[0] + " root fragment fan-out", n, sb.String()})
 		}
+		// introspection fan-out whose head is spread at two list depths, shallower first and deeper first
+		for _, two := range [][2]string{{"{__schema{types{...a0 fields{type{...a0}}}}}", "introspection fan-out at two depths, shallow first"},
+			{"{__schema{types{fields{type{...a0}} ...a0}}}", "introspection fan-out at two depths, deep first"},
+			{"{__type(name:\"Q\"){...a0 ofType{...a0 ofType{...a0}}}}", "introspection fan-out under ofType"}} {
+			sb.Reset()
+			sb.WriteString(two[0])
+			for i := 0; i < n; i++ {
+				fmt.Fprintf(&sb, " fragment a%d on __Type{...a%d ...a%d}", i, i+1, i+1)
+			}
+			fmt.Fprintf(&sb, " fragment a%d on __Type{name}", n)
+			out = append(out, advCase{two[1], n, sb.String()})
+		}
+		// many operations, each spreading the head of a fan-out whose leaves use a variable
+		sb.Reset()
+		for k := 0; k < n; k++ {
+			fmt.Fprintf(&sb, "query O%d($v: Int) { q { ...V0 } } ", k)
+		}
+		for i := 0; i < n; i++ {
+			fmt.Fprintf(&sb, "fragment V%d on Q{...V%d ...V%d} ", i, i+1, i+1)
+		}
+		fmt.Fprintf(&sb, "fragment V%d on Q{f(x: $v){a}}", n)
+		out = append(out, advCase{"many operations over a variable-using fan-out", n, sb.String()})
+		// fan-out under inline fragments and directives
+		sb.Reset()
+		sb.WriteString("query($v: Boolean!){i{... on Q{...D0} ... on R{q{...D0}}}}")
+		for i := 0; i < n; i++ {
+			fmt.Fprintf(&sb, " fragment D%d on Q{... on Q @include(if: $v){...D%d} ...D%d @skip(if: $v)}", i, i+1, i+1)
+		}
+		fmt.Fprintf(&sb, " fragment D%d on Q{a}", n)
+		out = append(out, advCase{"fan-out under inline fragments and directives", n, sb.String()})
 		// fragment cycle through fields, overlapping on a field with sub-selections
 		sb.Reset()
 		sb.WriteString("{q{...C0}}")
@@ -95,6 +125,46 @@ func adversarial(sizes []int) []advCase {
 	return out
 }
 
+func cyclicSchemas() []string {
+	q := "type Query { a: A } "
+	out := []string{
+		q + "interface A implements A { f: Int }",
+		q + "interface A implements B { f: Int } interface B implements A { f: Int }",
+		q + "interface A implements B & C { f: Int } interface B implements C & A { f: Int } interface C implements A & B { f: Int }",
+		q + "interface A implements B { f: Int } interface B implements C { f: Int } interface C implements A { f: Int }",
+		q + "interface A implements A { f: Int } type T implements A { f: Int }",
+		q + "interface A implements B & A { f: Int } interface B implements A & B { f: Int } type T implements A & B { f: Int }",
+		q + "type A implements A { f: Int }",
+		q + "union U = U type A { f: U }",
+		q + "union U = A | U type A { f: U }",
+		q + "type A { f(x: In): Int } input In { a: In }",
+		q + "type A { f(x: In): Int } input In { a: In! }",
+		q + "type A { f(x: In): Int } input In { a: [In!]! b: Other! } input Other { c: In! }",
+		q + "type A { f(x: In = {a: {a: {a: null}}}): Int } input In { a: In }",
+		q + "type A { f: Int @d } directive @d(x: Int @d) on FIELD_DEFINITION | ARGUMENT_DEFINITION",
+		q + "type A { f: Int @d(x: {y: 1}) } directive @d(x: In @e) on FIELD_DEFINITION directive @e(z: In @d) on ARGUMENT_DEFINITION input In { y: Int @e }",
+		q + "type A { a: A b: [A!]! f: Int } extend type A implements I interface I { a: A } extend interface I implements I",
+	}
+	// chains of increasing length: A0 implements A1 ... (each must list all ancestors to load)
+	for _, n := range []int{8, 64, 300} {
+		var sb strings.Builder
+		sb.WriteString("type Query { a: I0 } ")
+		for i := 0; i < n; i++ {
+			var anc []string
+			for j := i + 1; j < n; j++ {
+				anc = append(anc, "I"+itoa(j))
+			}
+			impl := ""
+			if len(anc) > 0 {
+				impl = " implements " + strings.Join(anc, " & ")
+			}
+			sb.WriteString("interface I" + itoa(i) + impl + " { f: Int } ")
+		}
+		out = append(out, sb.String())
+	}
+	return out
+}
+
 func runC02(c *core.Ctx) {
 	const thm = "C02_* (props/C02.v); model ops load/val"
 	c.ReplayKnown()
@@ -128,6 +198,11 @@ func runC02(c *core.Ctx) {
 			f2.Apply(c.Rng, s)
 		}
 		loads = append(loads, lc{[]string{s.Text()}})
+	}
+	// type systems with cycles: interfaces implementing themselves or one another, input objects
+	// containing themselves (nullable, non-null, through lists), long implements chains
+	for _, sdl := range cyclicSchemas() {
+		loads = append(loads, lc{[]string{sdl}})
 	}
 	c.Pool.ParFor(len(loads), func(w, i int) {
 		args := toArgs(loads[i].srcs)
